@@ -136,6 +136,10 @@ SplitStrict(e) ==
             /\ \A k \in 1..e.nfac : \A i, j \in 1..Len(e.primes) :
                   (Divides(e.primes[i], e.parts[k]) /\ Divides(e.primes[j], e.parts[k])) => e.pos[i] = e.pos[j]
        ELSE PartsOK(e.n, e.parts)
+\* a batch of calls (one event = a few hundred numbers): every answer is a proper split
+SplitsStrict(e) ==
+  /\ Len(e.rs) = Len(e.ns)
+  /\ \A i \in 1..Len(e.ns) : e.rs[i].some => PartsOK(e.ns[i], e.rs[i].parts)
 \* documented contract of gcd_factors: product of the factors = gcd(n, last) / gcd(n, first)
 SplitModel(e) ==
   e.via = "gcd_factors" =>
@@ -147,6 +151,7 @@ Ok(e) ==
     [] e.op = "grid" -> GridStrict(e)
     [] e.op = "inst" -> FoundIfPromised(e)
     [] e.op = "split" -> SplitStrict(e)
+    [] e.op = "splits" -> SplitsStrict(e)
     [] e.op = "expmod" -> e.r = PowMod(e.g, e.e, e.n)
     [] e.op = "cheb" -> e.r = LucasV(e.g, e.e, e.n)
     [] OTHER -> FALSE
